@@ -153,10 +153,15 @@ impl Parser {
                         .for_type(&TypecheckFlags::use_class(maybe_class_type.as_ref()))
                         .unwrap();
 
-                    if !key_type.eq_complex(
-                        map_type.key_type(),
-                        &TypecheckFlags::use_class(maybe_class_type.as_ref()),
-                    ) {
+                    // a key that may be nil never goes into a map whose key type does not admit nil
+                    let nil_key = key_type.is_optional().0 && !map_type.key_type().is_optional().0;
+
+                    if nil_key
+                        || !key_type.eq_complex(
+                            map_type.key_type(),
+                            &TypecheckFlags::use_class(maybe_class_type.as_ref()),
+                        )
+                    {
                         errors.push(new_err(key_span, &input.user_data().get_source_file_name(), format!("This map expects keys with type `{}`, but instead found type `{key_type}`", map_type.key_type())))
                     }
 
@@ -164,10 +169,16 @@ impl Parser {
                         .for_type(&TypecheckFlags::use_class(maybe_class_type.as_ref()))
                         .unwrap();
 
-                    if !value_type.eq_complex(
-                        map_type.value_type(),
-                        &TypecheckFlags::use_class(maybe_class_type.as_ref()),
-                    ) {
+                    // a value that may be nil never goes into a map whose value type does not admit nil
+                    let nil_value =
+                        value_type.is_optional().0 && !map_type.value_type().is_optional().0;
+
+                    if nil_value
+                        || !value_type.eq_complex(
+                            map_type.value_type(),
+                            &TypecheckFlags::use_class(maybe_class_type.as_ref()),
+                        )
+                    {
                         errors.push(new_err(value_span, &input.user_data().get_source_file_name(), format!("This map expects values with type `{}`, but instead found type `{value_type}`", map_type.value_type())))
                     }
 
